@@ -4,9 +4,10 @@
 # repository's own tests still pass with it, and that the demo passes without / fails with it.
 set -u
 M="$1"; OUT="$2"
-WT=/tmp/confirm/wt
-export CARGO_TARGET_DIR=/tmp/confirm/target CARGO_NET_OFFLINE=true
-mkdir -p /tmp/confirm
+BASE=${CONFIRM_BASE:-/tmp/confirm}
+WT=$BASE/wt
+export CARGO_TARGET_DIR=$BASE/target CARGO_NET_OFFLINE=true
+mkdir -p $BASE /tmp/confirm
 if [ ! -d "$WT" ]; then git -C /repo worktree add -q --detach "$WT" HEAD || exit 97; fi
 cd "$WT" && git checkout -q --detach "$(git -C /repo rev-parse HEAD)" && git checkout -- . && rm -f tests/demo_mut.rs examples/demo_mut.rs
 name=$(basename "$M")
